@@ -215,3 +215,179 @@ def o4(h):
             Eq(fa, v_sub(a, v_mul(0.5, l)), when=v_and(v_le(l, a), v_le(a, v_sub(1.0, l))), name='linear_in_the_middle'),
         ]
     c2.prove('smooth_linear', spec2)
+
+
+# ------------------------------------------------------------------------------------------ O5: IEEE binary64 exactness outside the band
+def _fp_eval(jaxpr, consts, args):
+    """interpret the (small, branch-free) jaxprs of the smooth functions over z3 Float64 terms with round-to-nearest-even:
+    only the handful of primitives that occur; anything else raises (then the obligation is a harness error, never a pass)"""
+    import z3
+    from jax import core as jcore
+    F64 = z3.Float64()
+    RNE = z3.RNE()
+
+    def fp(v):
+        if isinstance(v, z3.ExprRef):
+            return v
+        if isinstance(v, (bool, onp.bool_)):
+            return z3.BoolVal(bool(v))
+        return z3.FPVal(float(v), F64)
+    env = {}
+
+    def read(v):
+        if isinstance(v, jcore.Literal):
+            return fp(onp.asarray(v.val).item())
+        return env[v]
+    for v, c in zip(jaxpr.constvars, consts):
+        env[v] = fp(onp.asarray(c).item())
+    for v, a in zip(jaxpr.invars, args):
+        env[v] = a
+    for e in jaxpr.eqns:
+        iv = [read(v) for v in e.invars]
+        p = e.primitive.name
+        if p == 'pjit':
+            cj = e.params['jaxpr']
+            out = _fp_eval(cj.jaxpr, cj.consts, iv)
+        elif p == 'neg':
+            out = [z3.fpNeg(iv[0])]
+        elif p == 'abs':
+            out = [z3.fpAbs(iv[0])]
+        elif p == 'add':
+            out = [z3.fpAdd(RNE, iv[0], iv[1])]
+        elif p == 'sub':
+            out = [z3.fpSub(RNE, iv[0], iv[1])]
+        elif p == 'mul':
+            out = [z3.fpMul(RNE, iv[0], iv[1])]
+        elif p == 'div':
+            out = [z3.fpDiv(RNE, iv[0], iv[1])]
+        elif p == 'integer_pow' and e.params['y'] == 2:
+            out = [z3.fpMul(RNE, iv[0], iv[0])]
+        elif p == 'lt':
+            out = [z3.fpLT(iv[0], iv[1])]
+        elif p == 'gt':
+            out = [z3.fpGT(iv[0], iv[1])]
+        elif p == 'le':
+            out = [z3.fpLEQ(iv[0], iv[1])]
+        elif p == 'ge':
+            out = [z3.fpGEQ(iv[0], iv[1])]
+        elif p == 'select_n':
+            out = [z3.If(iv[0], iv[2], iv[1])]
+        elif p == 'cond':
+            brs = e.params['branches']
+            outs = [_fp_eval(b.jaxpr, b.consts, iv[1:]) for b in brs]
+            assert len(brs) == 2
+            out = [z3.If(iv[0], o1, o0) for o0, o1 in zip(outs[0], outs[1])]
+        elif p == 'convert_element_type':
+            out = [iv[0]]      # bool -> int32 index of a cond: the Bool itself is used as the selector
+        else:
+            raise RuntimeError('FP evaluator: primitive %s not supported' % p)
+        for v, o in zip(e.outvars, out):
+            env[v] = o
+    return [read(v) for v in jaxpr.outvars]
+
+
+@obligation(P, 'O5.ieee_exact_outside_band', cap=600)
+def o5(h):
+    """IN IEEE binary64 ARITHMETIC (z3 floating-point theory, round-to-nearest-even; not the real-arithmetic encoding of
+    O1-O4): outside the smoothing band the smoothed min/max/abs returned by the real code is EXACTLY the true min/max/abs,
+    for all finite doubles x, y and every finite width eps — the branch that is selected contains no rounding operation"""
+    import z3
+    import math
+    SF = _mods()[0]
+    h.encoded(SF.min_base, SF.min, SF.max, SF.abs)
+    h.bounds('x, y: all finite binary64 values (NaN and infinities excluded); eps: all finite binary64 values; the band test is the one the code itself evaluates in floating point')
+    h.assume_note('z3 FloatingPoint theory (bit-precise IEEE 754 binary64, RNE) instead of reals; only the exactness outside the band is claimed in floating point, the bounds inside the band are claimed over the reals (O1)')
+    F64 = z3.Float64()
+    x, y, e = z3.FP('x', F64), z3.FP('y', F64), z3.FP('eps', F64)
+    finite = [z3.Not(z3.fpIsNaN(v)) for v in (x, y, e)] + [z3.Not(z3.fpIsInf(v)) for v in (x, y, e)]
+
+    def run(name, fn, nargs, truth, band):
+        ex = [0.3, 0.1, 0.5][:nargs] if nargs == 3 else [0.3, 0.5]
+        cj = jax.make_jaxpr(fn)(*ex)
+        args = [x, y, e] if nargs == 3 else [x, e]
+        out = _fp_eval(cj.jaxpr, cj.consts, args)[0]
+        goal = z3.fpEQ(out, truth)
+        qn = '%s.exact_outside_band_in_binary64' % name
+        if h.replay is not None:
+            if h.replay.get('query') != '%s/%s' % (h.ob, qn):
+                return
+            v = h.replay['inputs']
+            got = float(fn(*[v[k] for k in (['x', 'y', 'eps'] if nargs == 3 else ['x', 'eps'])]))
+            want = v['truth']
+            h.replay_result = dict(status='violated' if got != want else 'unreproduced', got=got, want=want)
+            return
+        rec = dict(query='%s/%s' % (h.ob, qn), status=None, solver='z3-fp', attempts=[], nonvacuous=None)
+        import time
+        t0 = time.time()
+        s = z3.Solver()
+        s.set('timeout', 240000)
+        s.add(*finite)
+        s.add(z3.Not(band))
+        tw = s.check()
+        rec['attempts'].append(('vacuity', str(tw), round(time.time() - t0, 2)))
+        rec['nonvacuous'] = (tw == z3.sat)
+        s.add(z3.Not(goal))
+        r = s.check()
+        rec['attempts'].append(('fp', str(r), round(time.time() - t0, 2)))
+        rec['time_s'] = round(time.time() - t0, 2)
+        if r == z3.unsat:
+            rec['status'] = 'discharged'
+        elif r == z3.sat:
+            m = s.model()
+
+            def val(t):
+                f = m.eval(t, model_completion=True)
+                return float(eval(str(z3.simplify(z3.fpToReal(f)).as_fraction()))) if not (z3.is_fprm(f)) else None
+            vals = {k: val(t) for k, t in (('x', x), ('y', y), ('eps', e)) if nargs == 3 or k != 'y'}
+            got = float(fn(*[vals[k] for k in (['x', 'y', 'eps'] if nargs == 3 else ['x', 'eps'])]))
+            want = {'min': lambda: min(vals['x'], vals.get('y', 0.0)), 'max': lambda: max(vals['x'], vals.get('y', 0.0)), 'abs': lambda: abs(vals['x'])}[name]()
+            vals['truth'] = want
+            rec['model'] = vals
+            if got != want and not (math.isnan(got) and math.isnan(want)):
+                rec['status'] = 'violated'
+                rec['witness'] = repr((got, want))
+                rec['replay'] = h._write_replay(rec['query'], vals, dict(witness=rec['witness'], replay_info='real function in binary64'))
+            else:
+                rec['status'] = 'unreproduced'
+                rec['detail'] = 'FP model does not reproduce on the real function'
+        else:
+            rec['status'] = 'inconclusive'
+            rec['detail'] = 'z3 floating-point query returned unknown'
+            # falsification aid only: look for a counterexample on slices with pinned width / second argument (a model
+            # is a genuine counterexample and is replayed; unsat on a slice proves nothing and the verdict stays inconclusive)
+            for pins in ([(e, 0.125)], [(e, 0.125), (y, 1.0)], [(e, 0.125), (y, -1.0)]):
+                if nargs == 2 and any(v is y for v, _ in pins):
+                    continue
+                s2 = z3.Solver()
+                s2.set('timeout', 60000)
+                s2.add(*finite)
+                s2.add(z3.Not(band))
+                s2.add(z3.Not(goal))
+                for v_, c_ in pins:
+                    s2.add(v_ == z3.FPVal(c_, F64))
+                r2 = s2.check()
+                rec['attempts'].append(('pinned%d' % len(pins), str(r2), round(time.time() - t0, 2)))
+                if r2 == z3.sat:
+                    m = s2.model()
+
+                    def val2(t):
+                        f = m.eval(t, model_completion=True)
+                        return float(eval(str(z3.simplify(z3.fpToReal(f)).as_fraction())))
+                    vals = {k: val2(t) for k, t in (('x', x), ('y', y), ('eps', e)) if nargs == 3 or k != 'y'}
+                    got = float(fn(*[vals[k] for k in (['x', 'y', 'eps'] if nargs == 3 else ['x', 'eps'])]))
+                    want = {'min': lambda: min(vals['x'], vals.get('y', 0.0)), 'max': lambda: max(vals['x'], vals.get('y', 0.0)), 'abs': lambda: abs(vals['x'])}[name]()
+                    vals['truth'] = want
+                    rec['model'] = vals
+                    if got != want:
+                        rec['status'] = 'violated'
+                        rec['detail'] = 'counterexample found on a pinned slice'
+                        rec['witness'] = repr((got, want))
+                        rec['replay'] = h._write_replay(rec['query'], vals, dict(witness=rec['witness'], replay_info='real function in binary64'))
+                    break
+        h.records.append(rec)
+    RNE = z3.RNE()
+    band_xy = z3.fpLT(z3.fpAbs(z3.fpSub(RNE, x, y)), e)
+    run('min', lambda a, b, w: SF.min(a, b, w), 3, z3.fpMin(x, y), band_xy)
+    # max(x,y) = -min_base(-x,-y): the code's own band test is on (-x)-(-y), which is exactly -(x-y)
+    run('max', lambda a, b, w: SF.max(a, b, w), 3, z3.fpMax(x, y), z3.fpLT(z3.fpAbs(z3.fpSub(RNE, z3.fpNeg(x), z3.fpNeg(y))), e))
+    run('abs', lambda a, w: SF.abs(a, w), 2, z3.fpAbs(x), z3.fpLT(z3.fpAbs(z3.fpSub(RNE, z3.fpNeg(x), x)), e))
